@@ -8,25 +8,32 @@ DEINVERTING = [{'name': 'default'}, {'name': 'amr'}, {'name': 'mini'}]
 
 _BASES = ['ARG0', 'ARG1', 'mod', 'domain', 'r', 's', 'part', 'poss', 'loc', 'q', 'x2y', 'name']
 _OF_NAMES = ['consist-of', 'out-of', 'made-of']          # defined roles that end in -of by definition
-_PATTERNS = ['op[0-9]+', 'snt[0-9]+', 'ARG[0-9]', 'x[0-9]y[0-9]+']
+_PATTERNS = ['op[0-9]+', 'snt[0-9]+', 'ARG[0-9]', 'x[0-9]y[0-9]+', 'part[0-9]*-of']
 _PATTERN_INSTANCES = {'op[0-9]+': ['op1', 'op2', 'op10', 'op9'], 'snt[0-9]+': ['snt1', 'snt12'], 'ARG[0-9]': ['ARG0', 'ARG5'],
-                      'x[0-9]y[0-9]+': ['x2y9', 'x2y10']}
+                      'x[0-9]y[0-9]+': ['x2y9', 'x2y10'], 'part[0-9]*-of': ['part-of', 'part2-of'],
+                      'prep-[a-z-]+': ['prep-out-of', 'prep-on-behalf-of', 'prep-x', 'prep-as-of-of']}
 _CONCEPTS = ['have-mod-91', 'own-01', 'be-located-at-91', 'rel-01', 'c-91', 'include-91']
 
 
 @st.composite
-def custom_tables(draw, reifications=True, normalizations=True):
+def custom_tables(draw, reifications=True, normalizations=True, open_patterns=False):
     """Random role table with the two restrictions the laws need (DESIGN section 3):
     (i) inversion-unambiguous: never both r and r-of defined, and defined roles end in at most one "-of";
     (ii) normalisation values are not keys and are double-inversion fixed points."""
     lits = fy(draw, _BASES)[:draw(st.integers(0, 6))]
     ofs = fy(draw, _OF_NAMES)[:draw(st.integers(0, 2))]
     pats = fy(draw, _PATTERNS)[:draw(st.integers(0, 2))]
+    if open_patterns and chance(draw, 1, 3):
+        # an open-ended pattern defines r, r-of, r-of-of ... alike: the inversion laws (C13) are void for such roles, but
+        # layout round-trips (C02/C03/C04/C14) must still hold for them
+        pats.append('prep-[a-z-]+')
     # (i): drop a base whose -of form is also defined (none of the pools overlap that way) and pattern overlaps
     if 'ARG[0-9]' in pats:
         lits = [l for l in lits if not l.startswith('ARG')]
     if 'x[0-9]y[0-9]+' in pats:
         lits = [l for l in lits if l != 'x2y']
+    if 'part[0-9]*-of' in pats:
+        lits = [l for l in lits if l != 'part']
     roles = [':' + r for r in lits + ofs + pats]
     pool = [':' + r for r in lits + ofs] + [':' + i for p in pats for i in _PATTERN_INSTANCES[p]]
     pool += [':' + b for b in fy(draw, _BASES)[:3] if ':' + b not in pool] + [':foo', ':']
@@ -53,8 +60,8 @@ def custom_tables(draw, reifications=True, normalizations=True):
     return spec
 
 
-def model_specs(custom=True, noop=True):
+def model_specs(custom=True, noop=True, open_patterns=False):
     named = [m for m in NAMED if noop or m['name'] != 'noop']
     if not custom:
         return st.sampled_from(named)
-    return st.one_of(st.sampled_from(named), st.sampled_from(named), custom_tables())
+    return st.one_of(st.sampled_from(named), st.sampled_from(named), custom_tables(open_patterns=open_patterns))
